@@ -186,8 +186,8 @@ def main(args):
             shutil.rmtree(root, ignore_errors=True)
     finally:
         shutil.rmtree(tmp, ignore_errors=True)
-    os.makedirs(os.path.join(VERIF, 'evidence'), exist_ok=True)
-    with open(os.path.join(VERIF, 'evidence', 'selftest.json'), 'w') as f:
+    # (not under evidence/: that directory holds only the per-property evidence files of the schema)
+    with open(os.path.join(VERIF, 'seeded', 'selftest_last.json'), 'w') as f:
         json.dump({'results': results}, f, indent=1)
     bad = [r for r in results if r.get('ok') is False]
     print('selftest: %d mutants, %d as expected, %d not, %d skipped' % (
